@@ -294,7 +294,10 @@ class GeoIndex:
             for distances_to_query in jagged_distances
         ])
 
-        # Return the distances in kilometers
+        # Return the distances in kilometers (the haversine metric yields
+        # them as angles in radians)
+        if self.metric == "haversine":
+            distances *= earth_radius
         distances /= 1000.
 
         if self.shuffler is None:
